@@ -117,3 +117,18 @@ class Viol(dict):
 def result(viol=(), nontrivial=False, classes=(), info=None):
     return dict(viol=list(viol), nontrivial=bool(nontrivial), classes=list(classes),
                 info=info or {})
+
+
+# ---------------------------------------------------------------------------------------------
+# fine-grained breadcrumbs (crash attribution inside a case that runs several cells)
+_crumb_fn = None
+
+
+def set_crumb(fn):
+    global _crumb_fn
+    _crumb_fn = fn
+
+
+def crumb(obj):
+    if _crumb_fn is not None:
+        _crumb_fn(obj)
